@@ -12,7 +12,7 @@ checks = {
    text="Seeded search over sink contents (row lengths around the page capacity, empty and trailing-empty rows, MSINK menus), sizes, separators and labels; a client walks all pages with a fresh engine per page request; the pages must partition the rows in order, carry the static part, offer next/previous exactly where they apply, every offered entry must render, and requests past either end must not be answered with a page of the node. One run in 6 starts its walk from the page that comes again with an invalid-input line on top (catch node that only moves back). Sampling. Two defects are known findings: a row that fits on no later page (pinned by the existing tests), and walks that start from a page carrying an error line.",
    note="Trusted: output parser over sentinel templates; trailing empty rows are not compared (no glyphs)."),
  "C15": dict(level="fault_enumeration", design="§4 C15",
-   technique=TECH + "storage-corruption fault on bytecode records: every truncation, every byte replaced by 8 values, appended garbage; two readers (engine/VM, disassembler) against an independent decoder",
+   technique=TECH + "storage-corruption fault on bytecode records: every truncation, every byte replaced by 8 values, appended garbage; readers (engine/VM, the parser's disassembler, and for long records the repository's disassembler executable) against an independent decoder",
    text="For sampled valid programs using all twelve opcodes the stored record is damaged in every way of the catalogue and handed to the VM (through the resource seam, two requests) and to the disassembler; an independent decoder classifies each damaged record; no reader may panic in decoding, the disassembler must fail iff the record is malformed, the VM must fail on a truncated instruction, never report success past a malformed one (also not by showing the decoding error on a catch page after an earlier external failure) and not go on from behind it on the next request. Every second run repeats a set of damages behind 300 to 70000 complete valid instructions.  In half the runs a second symbol whose name extends the first one's is loaded and mapped. For the long records a third reader runs: the repository's disassembler executable (dev/disasm, built by build.sh) on a real file, judged by its exit status. Exhaustive per program over the catalogue; programs sampled. Claimed only as a storage fault (not arbitrary byte strings, not coverage-guided fuzzing).",
    note="Trusted: refcodec decoder written from the documentation; panics outside the decoding functions (e.g. a decoded flag index out of range) are execution semantics and only counted."),
  "C19": dict(level="exploration", design="§4 C19",
